@@ -472,7 +472,17 @@ func (s *Sim) checkDrained() {
 	for _, nid := range sortedKeys(p.Nodes) {
 		n := p.Nodes[nid]
 		if !n.Alloc.IsZero() || len(n.Allocs) != 0 {
-			s.violate("C03", "leak-node", "", "after everything was released node %s still reports allocated %s (%d allocations)", nid, n.Alloc, len(n.Allocs))
+			detail := ""
+			failed := 0
+			for _, al := range n.Allocs {
+				if d := p.Done[al.App]; d != nil && (d.State == "Failed" || d.State == "Failing") {
+					failed++
+				}
+			}
+			if failed > 0 && failed == len(n.Allocs) {
+				detail = "orphans-of-failed-app"
+			}
+			s.violate("C03", "leak-node", detail, "after everything was released node %s still reports allocated %s (%d allocations)", nid, n.Alloc, len(n.Allocs))
 		}
 		if !n.Occupied.IsZero() {
 			s.violate("C03", "leak-node-occupied", "", "after every foreign allocation was removed node %s still reports occupied %s", nid, n.Occupied)
@@ -484,14 +494,10 @@ func (s *Sim) checkDrained() {
 	if len(p.Apps) != 0 {
 		s.violate("C03", "leak-app", "", "after every application was removed the partition still lists %v", sortedKeys(p.Apps))
 	}
-	if p.PartAllocs != 0 || p.PartPh != 0 {
-		s.violate("C03", "leak-partition-counters", "", "after everything was removed the partition counts allocations=%d placeholders=%d", p.PartAllocs, p.PartPh)
+	if p.PartAllocs != 0 || p.PartPh != 0 || p.PartRes != 0 {
+		s.probe("partition_counter_leak_after_drain")
 	}
-	if p.PartRes != 0 {
-		s.probe("reservation_counter_leak_after_drain")
-	} else {
-		s.probe("drained_clean")
-	}
+	s.probe("drained_clean")
 	s.checkDrainedMore()
 }
 
